@@ -172,6 +172,11 @@ Definition wrap_negative (t : bytes) : bytes :=
   | [] => t
   end.
 
+(* constant<std::string>::display: a double quote or a backslash is preceded by a
+   backslash (when the source does so: Gen/Templates.v const_str_escapes) *)
+Definition escape_str (s : bytes) : bytes :=
+  flat_map (fun c => if (c =? 34) || (c =? 92) then [92; c] else [c]) s.
+
 Definition sym_text (env : lang_env) (f : fmt) (s : sym) (par : f64) : option bytes :=
   match env (s_opcode s) with
   | None => None
@@ -183,7 +188,7 @@ Definition sym_text (env : lang_env) (f : fmt) (s : sym) (par : f64) : option by
                       else None
         | SConstD v => match to_string_f64 v with Some t => Some (wrap_negative t) | None => None end
         | SConstI v => Some (wrap_negative (to_string_int v))
-        | SConstS s => Some (34 :: s ++ [34])
+        | SConstS s => Some (34 :: (if const_str_escapes then escape_str s else s) ++ [34])
         end
       else
         match d with
